@@ -10,6 +10,7 @@ randomness in the repository's own consensus-side code is one of the justified s
 -/
 import PalomaModel.Gen.Nondet
 import PalomaModel.Props.C04
+import PalomaModel.Model.Queue
 
 namespace Paloma.Determinism
 open List
@@ -50,6 +51,208 @@ theorem updKV_comm (m : Nat → Option Nat) (a b : Nat × Nat) (h : a.1 ≠ b.1)
       subst h2; simp [this]
     · simp [h1, h2]
 
+/-! ### the relayer ranking of `Model/Queue.lean` (`rankValidators`, `probeMin/Max`, the final sort) -/
+section Ranking
+open Paloma.Queue
+theorem before_trans {a b c : Scored} (h1 : before a b = true) (h2 : before b c = true) : before a c = true := by
+  simp only [before, Bool.or_eq_true, Bool.and_eq_true, decide_eq_true_eq, beq_iff_eq] at *
+  omega
+
+theorem before_asymm {a b : Scored} (h1 : before a b = true) : ¬ before b a = true := by
+  simp only [before, Bool.or_eq_true, Bool.and_eq_true, decide_eq_true_eq, beq_iff_eq] at *
+  omega
+
+theorem before_total {a b : Scored} (hne : a.id ≠ b.id) (h : ¬ before a b = true) : before b a = true := by
+  simp only [before, Bool.or_eq_true, Bool.and_eq_true, decide_eq_true_eq, beq_iff_eq] at *
+  omega
+
+theorem insertScored_perm (x : Scored) (l : List Scored) : (insertScored x l).Perm (x :: l) := by
+  induction l with
+  | nil => simp [insertScored]
+  | cons y ys ih =>
+    unfold insertScored
+    split
+    · exact List.Perm.refl _
+    · exact (List.Perm.cons y ih).trans (List.Perm.swap x y ys)
+
+theorem rank_perm (l : List Scored) : (rank l).Perm l := by
+  induction l with
+  | nil => simp [rank]
+  | cons x xs ih =>
+    have : rank (x :: xs) = insertScored x (rank xs) := rfl
+    rw [this]
+    exact (insertScored_perm x (rank xs)).trans (List.Perm.cons x ih)
+
+theorem insertScored_sorted (x : Scored) (l : List Scored) (hs : l.Pairwise (fun a b => before a b = true))
+    (hne : ∀ y ∈ l, x.id ≠ y.id) : (insertScored x l).Pairwise (fun a b => before a b = true) := by
+  induction l with
+  | nil => simp [insertScored]
+  | cons y ys ih =>
+    have hy := List.pairwise_cons.mp hs
+    unfold insertScored
+    split
+    · rename_i hb
+      refine List.pairwise_cons.mpr ⟨?_, hs⟩
+      intro z hz
+      rcases List.mem_cons.mp hz with rfl | hz
+      · exact hb
+      · exact before_trans hb (hy.1 z hz)
+    · rename_i hb
+      have hyx : before y x = true := before_total (hne y (by simp)) hb
+      refine List.pairwise_cons.mpr ⟨?_, ih hy.2 (fun z hz => hne z (by simp [hz]))⟩
+      intro z hz
+      rcases List.mem_cons.mp ((insertScored_perm x ys).subset hz) with rfl | hz
+      · exact hyx
+      · exact hy.1 z hz
+
+theorem rank_sorted_strict (l : List Scored) (hid : (l.map (·.id)).Nodup) :
+    (rank l).Pairwise (fun a b => before a b = true) := by
+  induction l with
+  | nil => simp [rank]
+  | cons x xs ih =>
+    have hn : x.id ∉ xs.map (·.id) ∧ (xs.map (·.id)).Nodup := List.nodup_cons.mp (by simpa [List.map_cons] using hid)
+    have : rank (x :: xs) = insertScored x (rank xs) := rfl
+    rw [this]
+    apply insertScored_sorted x (rank xs) (ih hn.2)
+    intro y hy heq
+    have hyin : y ∈ xs := (rank_perm xs).subset hy
+    exact hn.1 (by rw [heq]; exact List.mem_map_of_mem hyin)
+
+theorem clamp0_nonneg (a : Int) : 0 ≤ clamp0 a := by unfold clamp0; split <;> omega
+
+/-- the running minimum: result is a lower bound of the seed and of every clamped value, and is attained -/
+theorem minfold_spec (rest : List Int) : ∀ b0, 0 ≤ b0 →
+    let r := rest.foldl (fun b a => if a < b then clamp0 a else b) b0
+    (r = b0 ∨ r ∈ rest.map clamp0) ∧ r ≤ b0 ∧ (∀ a ∈ rest, r ≤ clamp0 a) ∧ 0 ≤ r := by
+  induction rest with
+  | nil => intro b0 h; simp [h]
+  | cons a as ih =>
+    intro b0 h0
+    simp only [List.foldl_cons]
+    by_cases hlt : a < b0
+    · simp only [hlt, if_true]
+      have hc := clamp0_nonneg a
+      have hle : clamp0 a ≤ b0 := by unfold clamp0; split <;> omega
+      have := ih (clamp0 a) hc
+      simp only at this
+      refine ⟨?_, by omega, ?_, this.2.2.2⟩
+      · rcases this.1 with e | e
+        · right; rw [e]; simp
+        · right; simp only [List.map_cons, List.mem_cons]; right; exact e
+      · intro y hy
+        rcases List.mem_cons.mp hy with rfl | hy
+        · exact this.2.1
+        · exact this.2.2.1 y hy
+    · simp only [hlt, if_false]
+      have := ih b0 h0
+      simp only at this
+      refine ⟨?_, this.2.1, ?_, this.2.2.2⟩
+      · rcases this.1 with e | e
+        · left; exact e
+        · right; simp only [List.map_cons, List.mem_cons]; right; exact e
+      · intro y hy
+        rcases List.mem_cons.mp hy with rfl | hy
+        · have : b0 ≤ clamp0 y := by unfold clamp0; split <;> omega
+          omega
+        · exact this.2.2.1 y hy
+
+theorem wmin_spec (l : List Int) (hne : l ≠ []) : wmin l ∈ l.map clamp0 ∧ ∀ a ∈ l, wmin l ≤ clamp0 a := by
+  cases l with
+  | nil => exact absurd rfl hne
+  | cons x rest =>
+    have := minfold_spec rest (clamp0 x) (clamp0_nonneg x)
+    simp only at this
+    show (rest.foldl (fun b a => if a < b then clamp0 a else b) (clamp0 x)) ∈ _ ∧ ∀ a ∈ x :: rest, (rest.foldl (fun b a => if a < b then clamp0 a else b) (clamp0 x)) ≤ clamp0 a
+    refine ⟨?_, ?_⟩
+    · rcases this.1 with e | e
+      · rw [e]; simp
+      · simp only [List.map_cons, List.mem_cons]; right; exact e
+    · intro a ha
+      rcases List.mem_cons.mp ha with rfl | ha
+      · exact this.2.1
+      · exact this.2.2.1 a ha
+
+theorem wmin_perm {l₁ l₂ : List Int} (hp : l₁.Perm l₂) : wmin l₁ = wmin l₂ := by
+  by_cases h1 : l₁ = []
+  · subst h1; rw [List.Perm.nil_eq hp]
+  · have h2 : l₂ ≠ [] := fun e => h1 (by subst e; exact List.Perm.eq_nil hp)
+    have a := wmin_spec l₁ h1
+    have b := wmin_spec l₂ h2
+    rcases List.mem_map.mp a.1 with ⟨x, hx, ex⟩
+    rcases List.mem_map.mp b.1 with ⟨y, hy, ey⟩
+    have := b.2 x (hp.subset hx)
+    have := a.2 y (hp.symm.subset hy)
+    omega
+
+theorem maxfold_spec (rest : List Int) : ∀ b0,
+    let r := rest.foldl (fun b a => if a > b then a else b) b0
+    (r = b0 ∨ r ∈ rest) ∧ b0 ≤ r ∧ (∀ a ∈ rest, a ≤ r) := by
+  induction rest with
+  | nil => intro b0; simp
+  | cons a as ih =>
+    intro b0
+    simp only [List.foldl_cons]
+    by_cases hgt : a > b0
+    · simp only [hgt, if_true]
+      have := ih a
+      simp only at this
+      refine ⟨?_, by omega, ?_⟩
+      · rcases this.1 with e | e
+        · right; rw [e]; simp
+        · right; exact List.mem_cons_of_mem _ e
+      · intro y hy
+        rcases List.mem_cons.mp hy with rfl | hy
+        · exact this.2.1
+        · exact this.2.2 y hy
+    · simp only [hgt, if_false]
+      have := ih b0
+      simp only at this
+      refine ⟨?_, this.2.1, ?_⟩
+      · rcases this.1 with e | e
+        · left; exact e
+        · right; exact List.mem_cons_of_mem _ e
+      · intro y hy
+        rcases List.mem_cons.mp hy with rfl | hy
+        · omega
+        · exact this.2.2 y hy
+
+theorem wmax_spec (l : List Int) (hne : l ≠ []) : wmax l ∈ l ∧ ∀ a ∈ l, a ≤ wmax l := by
+  cases l with
+  | nil => exact absurd rfl hne
+  | cons x rest =>
+    have := maxfold_spec rest x
+    simp only at this
+    show (rest.foldl (fun b a => if a > b then a else b) x) ∈ x :: rest ∧ ∀ a ∈ x :: rest, a ≤ (rest.foldl (fun b a => if a > b then a else b) x)
+    refine ⟨?_, ?_⟩
+    · rcases this.1 with e | e
+      · rw [e]; simp
+      · exact List.mem_cons_of_mem _ e
+    · intro a ha
+      rcases List.mem_cons.mp ha with rfl | ha
+      · exact this.2.1
+      · exact this.2.2 a ha
+
+theorem wmax_perm {l₁ l₂ : List Int} (hp : l₁.Perm l₂) : wmax l₁ = wmax l₂ := by
+  by_cases h1 : l₁ = []
+  · subst h1; rw [List.Perm.nil_eq hp]
+  · have h2 : l₂ ≠ [] := fun e => h1 (by subst e; exact List.Perm.eq_nil hp)
+    have a := wmax_spec l₁ h1
+    have b := wmax_spec l₂ h2
+    have := b.2 _ (hp.subset a.1)
+    have := a.2 _ (hp.symm.subset b.1)
+    omega
+
+theorem scoreOf_perm (w : Weights) {i₁ i₂ : List Info} (hp : i₁.Perm i₂) (i : Info) :
+    scoreOf w i₁ i = scoreOf w i₂ i := by
+  unfold scoreOf
+  rw [wmax_perm (hp.map (·.fee)), wmin_perm (hp.map (·.fee)),
+      wmax_perm (hp.map (·.uptime)), wmin_perm (hp.map (·.uptime)),
+      wmax_perm (hp.map (·.successRate)), wmin_perm (hp.map (·.successRate)),
+      wmax_perm (hp.map (·.execTime)), wmin_perm (hp.map (·.execTime)),
+      wmax_perm (hp.map (·.featureSet)), wmin_perm (hp.map (·.featureSet))]
+
+end Ranking
+
 end Lemmas
 
 /-! ## Property theorems (C08) -/
@@ -77,8 +280,7 @@ theorem max_window_perm_invariant {l₁ l₂ : List Nat} (h : l₁.Perm l₂) (i
 /-- **sorted_perm_unique.** The ranking ends with a sort by (score desc, address asc), a strict
 total order because addresses are unique: two sorted lists with the same elements are equal, so
 the ranked list is independent of the order in which scores were appended. -/
-theorem sorted_perm_unique {α : Type} (lt : α → α → Prop)
-    (irrefl : ∀ a, ¬ lt a a) (asymm : ∀ a b, lt a b → ¬ lt b a) (trans : ∀ a b c, lt a b → lt b c → lt a c)
+theorem sorted_perm_unique {α : Type} (lt : α → α → Prop) (asymm : ∀ a b, lt a b → ¬ lt b a)
     {l₁ l₂ : List α} (hp : l₁.Perm l₂) (h₁ : l₁.Pairwise lt) (h₂ : l₂.Pairwise lt) : l₁ = l₂ := by
   induction l₁ generalizing l₂ with
   | nil => exact (List.Perm.nil_eq hp)
@@ -98,6 +300,27 @@ theorem sorted_perm_unique {α : Type} (lt : α → α → Prop)
           · exact absurd (ha.1 b hbin') (asymm _ _ (hb.1 a hain'))
       subst hab
       rw [ih ((List.perm_cons a).mp hp) ha.2 hb.2]
+
+open Paloma.Queue in
+/-- **ranking_independent_of_map_order.** ("relayer selection … gives the same answer every time it is
+evaluated on the same state") `rankValidators` collects the validators' infos by ranging over a Go map:
+the model's ranking — window minima / maxima (`wmin`, `wmax`), the five weighted scores and the final
+sort by (score desc, address asc) — gives the same list for every order in which that map is iterated,
+provided validator addresses are distinct (they are the map's keys). -/
+theorem ranking_independent_of_map_order (w : Weights) {i₁ i₂ : List Info} (hp : i₁.Perm i₂)
+    (hid : (i₁.map (·.id)).Nodup) :
+    rank (i₁.map (scoreOf w i₁)) = rank (i₂.map (scoreOf w i₂)) := by
+  have hcongr : i₂.map (scoreOf w i₂) = i₂.map (scoreOf w i₁) :=
+    List.map_congr_left (fun i _ => (scoreOf_perm w hp i).symm)
+  have hs : (i₁.map (scoreOf w i₁)).Perm (i₂.map (scoreOf w i₂)) := by rw [hcongr]; exact hp.map _
+  have hids : ∀ (l : List Info), (l.map (scoreOf w i₁)).map (·.id) = l.map (·.id) := by
+    intro l; simp [List.map_map, Function.comp_def, scoreOf]
+  have hid1 : ((i₁.map (scoreOf w i₁)).map (·.id)).Nodup := by rw [hids]; exact hid
+  have hid2 : ((i₂.map (scoreOf w i₂)).map (·.id)).Nodup := by
+    rw [hcongr, hids]; exact (hp.map (·.id)).nodup_iff.mp hid
+  apply sorted_perm_unique (fun a b => before a b = true) (fun a b h => before_asymm h)
+    (((rank_perm _).trans hs).trans (rank_perm _).symm)
+    (rank_sorted_strict _ hid1) (rank_sorted_strict _ hid2)
 
 /-- **distinct_key_writes_commute.** Writes to pairwise distinct store keys (the metrix purge
 loop, map-to-map copies) give the same store in whatever order the map is iterated. -/
@@ -133,18 +356,19 @@ theorem evidence_winner_order_independent (s : Paloma.Libcons.Snapshot) (evs : L
 def safeKinds : List String := ["collect-then-sort", "map-to-map", "exists-early-return", "empty"]
 
 /-- every other `range` over a map in consensus-side code, with the reason it is harmless
-    (key = enclosing function # ranged expression) -/
-def justified : List (String × String) := [
-  ("app.App.AutoCliOpts#app.ModuleManager.Modules", "CLI wiring, not a state transition"),
-  ("app/mempool.IsEmpty#mp.priorityCounts", "mempool self-check returning only an error/no error; not consensus state"),
-  ("app/mempool.IsEmpty#mp.senderIndices", "mempool self-check; not consensus state"),
-  ("util/libcons.ConsensusChecker.VerifyEvidence#groups", "at most one group has quorum: evidence_winner_order_independent"),
-  ("x/evm/keeper.rankValidators#validatorsInfos", "min/max window and final total-order sort: min_window_perm_invariant, max_window_perm_invariant, sorted_perm_unique"),
-  ("x/metrix/keeper.Keeper.PurgeRelayMetrics#updates", "writes to pairwise distinct keys: distinct_key_writes_commute"),
-  ("x/skyway/keeper.CheckBatches#inProgressBatches", "crisis invariant, read-only"),
-  ("x/skyway/types.InternalBridgeValidators.PowerDiff#powers", "no caller outside tests (float sum would be order-sensitive if it were ever used)"),
-  ("x/valset/keeper.Keeper.isNewSnapshotWorthy#currentMap", "existential with early `return true`; only the log text differs"),
-  ("x/valset/keeper.Keeper.isNewSnapshotWorthy#currentTraitMap", "existential with early `return true`")
+    (key = enclosing function # ranged expression, then HOW MANY such loops the function has: a further
+    loop over the same expression in the same function is a new site and makes the count wrong) -/
+def justified : List (String × Nat × String) := [
+  ("app.App.AutoCliOpts#app.ModuleManager.Modules", 1, "CLI wiring, not a state transition"),
+  ("app/mempool.IsEmpty#mp.priorityCounts", 1, "mempool self-check returning only an error/no error; not consensus state"),
+  ("app/mempool.IsEmpty#mp.senderIndices", 1, "mempool self-check; not consensus state"),
+  ("util/libcons.ConsensusChecker.VerifyEvidence#groups", 1, "at most one group has quorum: evidence_winner_order_independent"),
+  ("x/evm/keeper.rankValidators#validatorsInfos", 2, "the whole ranking is order-independent: ranking_independent_of_map_order (on Model/Queue.lean's rank / scoreOf / wmin / wmax, which the C06/C14 correspondence ties to the Go code)"),
+  ("x/metrix/keeper.Keeper.PurgeRelayMetrics#updates", 1, "writes to pairwise distinct keys: distinct_key_writes_commute"),
+  ("x/skyway/keeper.CheckBatches#inProgressBatches", 1, "crisis invariant, read-only"),
+  ("x/skyway/types.InternalBridgeValidators.PowerDiff#powers", 1, "no caller outside tests (float sum would be order-sensitive if it were ever used)"),
+  ("x/valset/keeper.Keeper.isNewSnapshotWorthy#currentMap", 1, "existential with early `return true`; only the log text differs"),
+  ("x/valset/keeper.Keeper.isNewSnapshotWorthy#currentTraitMap", 1, "existential with early `return true`")
 ]
 
 def envJustified : List (String × String) := [
@@ -171,6 +395,10 @@ def randJustified : List String :=
 def mapRangeOk (s : Paloma.Gen.Nondet.Site) : Bool :=
   safeKinds.contains s.kind || justified.any (fun j => j.1 == s.fn ++ "#" ++ s.expr)
 
+/-- number of map ranges of a non-safe shape with this key in the current source -/
+def unsafeSites (key : String) : Nat :=
+  (Paloma.Gen.Nondet.mapRanges.filter fun s => !safeKinds.contains s.kind && s.fn ++ "#" ++ s.expr == key).length
+
 /-- **nondeterminism_inventory_covered.** In the current source every `range` over a map is an
 order-insensitive shape (a filtered collect counts as a collect, and must be sorted afterwards) or
 individually justified above; the only environment reads are the two justified ones, and after
@@ -182,6 +410,7 @@ survive into another call. A new unsorted map range, environment read, `time.Now
 use on a consensus path makes this `decide` fail. -/
 theorem nondeterminism_inventory_covered :
     (Paloma.Gen.Nondet.mapRanges.all mapRangeOk &&
+     justified.all (fun j => unsafeSites j.1 == j.2.1) &&
      Paloma.Gen.Nondet.envReads.all (fun s => envJustified.any (fun j => j.1 == s.fn)) &&
      Paloma.Gen.Nondet.envRegions.all envRegionOk &&
      Paloma.Gen.Nondet.envRegions.length == Paloma.Gen.Nondet.envReads.length &&
@@ -192,6 +421,8 @@ theorem nondeterminism_inventory_covered :
 
 /-! ### non-vacuity -/
 example : [3, 1, 2].foldl min 9 = [2, 3, 1].foldl min 9 := by decide
+open Paloma.Queue in
+example : rank [⟨1, 5⟩, ⟨2, 7⟩, ⟨3, 5⟩] = rank [⟨3, 5⟩, ⟨1, 5⟩, ⟨2, 7⟩] ∧ rank [⟨1, 5⟩, ⟨2, 7⟩, ⟨3, 5⟩] = [⟨2, 7⟩, ⟨1, 5⟩, ⟨3, 5⟩] := by decide
 example : ([(1, 10), (2, 20)].foldl updKV (fun _ => none)) 2 = ([(2, 20), (1, 10)].foldl updKV (fun _ => none)) 2 := by decide
 
 end Paloma.Determinism
